@@ -24,7 +24,9 @@ drops it in its direct-response branch (`clearRetryState`), `onUpstreamHeaders` 
 "the request is (re)sent upstream".
 
 Not modelled (assumptions, stated in props/C14.json): what follows a retry, no downstream reset, no timer fires, filters
-do not write the response themselves (`AppendHeaders` on the handler), one upstream event.
+do not write the response themselves (`AppendHeaders` on the handler), one upstream event while the worker waits — plus
+([proxy8]) the reset of the accepted streamed response's upstream stream while the worker runs the sender filters
+(`Env.upfReset`, `upfEvent`).
 -/
 namespace MosnVerif.Model.FilterMachine
 open MosnVerif.Gen.FilterPhase MosnVerif.Model.FilterChain
@@ -63,6 +65,7 @@ structure Env where
   reqData : Bool := false
   reqTrailers : Bool := false
   up : UpEvent
+  upfReset : Bool := false        -- [proxy8] the label `reset during UpFilter`: the upstream stream of the accepted (streamed) response is reset while the worker runs the sender filters
 
 structure Cfg where
   recv : List RFilter
@@ -86,7 +89,7 @@ structure St extends FState where
   inner : Nat := 0                -- loop counter of `receive`
   outer : Nat := 0                -- completed calls of `receive` in the task loop
   halted : Bool := false          -- the task returned (or blocks forever in waitNotify)
-  exhausted : Bool := false       -- … because the 10-iteration task loop ran out (stream left unfinished)
+  exhausted : Bool := false       -- … with the stream left unfinished: the task loop's budget ran out and nothing (or a pass that did not reach End) followed
   blocked : Bool := false         -- … because nothing will ever notify
   upstreamReset : Bool := false
   procDone : Bool := false        -- upstreamProcessDone
@@ -157,11 +160,16 @@ def ops (c : Cfg) (d : Bool) : Ops St where
   resetStream s := clean s
   markDirectResponse s := s
 
-/-- `receive` returned phase `p` to the task loop of OnReceive -/
+/-- `receive` returned phase `p` to its caller.  `outer` counts the calls of `receive` that came back into the task loop of
+OnReceive: `outer < taskLoopBound` = the loop calls `receive` again; `outer = taskLoopBound` = the budget is used up, what
+follows the loop runs next (`finishStart`, a step of its own; the `processError` it calls hands the phase of the finishing
+pass back through this function); `outer > taskLoopBound` = the finishing pass is running, and whatever it hands back nobody
+looks at: anything but `End` (the phase `Retry` too — no `doRetry` follows) leaves the stream unfinished (`exhausted`;
+never happens on the repaired code: theorem `never_abandoned`). -/
 def ret (s : St) (p : Nat) : St :=
   if p = End then { s with halted := true, phase := p }
+  else if s.outer > taskLoopBound then { s with halted := true, exhausted := true, phase := p }
   else if p = Retry then { s with halted := true, retried := true, phase := p }   -- doRetry: the request goes upstream again
-  else if s.outer + 1 ≥ taskLoopBound then { s with halted := true, exhausted := true, phase := p }
   else { s with phase := p, inner := 0, outer := s.outer + 1 }
 
 /-- `if p, err := s.processError(id); err != nil { return p }; phase++` -/
@@ -182,6 +190,30 @@ def filterPass (c : Cfg) (p : RPhase) (s : St) : St :=
 def sendPass (c : Cfg) (s : St) : St :=
   let (f, invs) := runSend c.send s.toFState
   emit (liftF s f) (.spass s.scursor invs)
+
+def isUpAdmitted : Ev → Bool
+  | .up false => true
+  | _ => false
+
+def isDenyEv : Ev → Bool
+  | .rpass _ _ invs => invs.any (fun iv => iv.2.isDeny)
+  | _ => false
+
+/-- [proxy8] the label `reset during UpFilter` of the shared downstream machine (`upResetL` enabled while `upfRunning`), as the
+one further upstream event of this machine: the request was admitted upstream (`NewStream` in the trace), the head of a
+streamed response (data / trailers still in flight: the client stream stays registered) was accepted, and while the worker
+runs the sender filters of that response the stream is reset — `upstreamRequest.OnResetStream` raises `upstreamReset`, which
+the `processError` that ends the UpFilter `case` finds at `s.phase == UpFilter`.  The event needs an upstream stream: it is
+not enabled after a deny (redundant with "admitted upstream" by `deny_not_forwarded`; kept so that the reply-side invariant
+does not depend on that theorem). -/
+def upfEnabled (c : Cfg) (s : St) : Bool :=
+  c.env.upfReset && s.upRespReceived && s.trace.any isUpAdmitted && !s.trace.any isDenyEv &&
+    (match c.env.up with | .resp _ d t => d || t | _ => false)
+
+def upfEvent (c : Cfg) (s : St) : St := if upfEnabled c s then { s with upstreamReset := true } else s
+
+/-- the sender-filter `case` up to its `processError`: the sender pass, during which the upstream reset may arrive -/
+def sendPassE (c : Cfg) (s : St) : St := upfEvent c (sendPass c s)
 
 /-- downStream.chooseHost -/
 def chooseHost (c : Cfg) (s : St) : St :=
@@ -243,7 +275,7 @@ def phaseCase (c : Cfg) (s : St) : St :=
   else if s.phase = WaitNotify then
     let s := deliver c s
     if s.halted then s else afterPE c s
-  else if s.phase = sendFilterPhase then afterPE c (sendPass c s)
+  else if s.phase = sendFilterPhase then afterPE c (sendPassE c s)
   else if s.phase = UpRecvHeader then
     match s.resp with
     | some r =>
@@ -265,9 +297,25 @@ def phaseCase (c : Cfg) (s : St) : St :=
     | some p => afterPE c (filterPass c p s)
     | none => { emit s (.unmodelled s.phase) with halted := true }   -- Retry (needs a retry policy) / out of range
 
-/-- one iteration of the `for i := 0; i <= End-InitPhase; i++` loop of `receive` -/
+/-- [proxy8] what follows the task loop when its budget is used up (regenerated: `Gen.FilterPhase.exhaustFinishes` = the loop
+is followed by `s.onReentryExhausted(id, phase)`; `exhaustHijacks` = its guard `phase == MatchRoute || phase == ChooseHost`;
+`exhaustCode` = api.InternalErrorCode): nothing if the stream is cleaned; when the last pass handed back a pending local
+reply (UpFilter) or the one-way clean up (Oneway) the finishing pass starts there; otherwise `sendHijackReply(500)` and the
+REGENERATED `processError` (`afterPE`) that takes it like every local reply — drops the retry state, clears the again-phase,
+hands back UpFilter, or Oneway for a one-way request — and the finishing pass starts at that phase.  The following steps
+run that pass.  On the code before the repair (`exhaustFinishes = false`) the task returns here: stream neither answered
+nor cleaned. -/
+def finishStart (c : Cfg) (s : St) : St :=
+  if !exhaustFinishes then { s with halted := true, exhausted := true }
+  else if s.cleaned then { s with halted := true }
+  else if !exhaustHijacks s.phase then { s with outer := s.outer + 1 }
+  else afterPE c (liftF s (sendHijack s.toFState exhaustCode false))
+
+/-- one iteration of the `for i := 0; i <= End-InitPhase; i++` loop of `receive` (or, when the task loop's budget is used up,
+what follows that loop) -/
 def step (c : Cfg) (s : St) : St :=
   if s.halted then s
+  else if s.outer = taskLoopBound then finishStart c s
   else if s.inner > receiveLoopBound then ret s End            -- "unexpected phase cycle time"
   else phaseCase c { s with inner := s.inner + 1 }
 
@@ -277,8 +325,9 @@ def run (c : Cfg) : Nat → St → St
 
 def init : St := {}
 
-/-- more steps than the task loop can make: taskLoopBound calls of `receive`, each at most receiveLoopBound+2 iterations -/
-abbrev fuel : Nat := taskLoopBound * (receiveLoopBound + 2)
+/-- more steps than the task can make: taskLoopBound calls of `receive` in the loop, the step after the loop and the finishing
+pass, each at most receiveLoopBound+2 iterations -/
+abbrev fuel : Nat := (taskLoopBound + 2) * (receiveLoopBound + 2)
 
 def final (c : Cfg) : St := run c fuel init
 
